@@ -23,6 +23,8 @@ pub mod c01;
 pub mod c02;
 #[cfg(any(feature = "p02"))]
 pub mod pipe_catch;
+#[cfg(any(feature = "p02"))]
+pub mod pipe_maniac;
 pub mod pipe;
 #[cfg(any(feature = "p03"))]
 pub mod c03;
